@@ -108,4 +108,64 @@ theorem syncOps_nokeep_isSync (c : Config) (hk : c.keep = false) (f : Flags) :
   · rw [syncOps_unsync c f hs]; simp [hk]
   · rw [syncOps_sync c f hs]; exact hs
 
+/-! ### callbacks: every particle edit is seen synchronised and picked up -/
+
+/-- flag transitions needed: synchronize synchronises and keeps a set recalculate flag of a
+    synchronised state; setting the flag keeps the state synchronised -/
+structure EditFlags (stepF syncF setF : F → F) (isS isR : F → Bool) : Prop where
+  sync_isS : ∀ f, isS (syncF f) = true
+  sync_isR : ∀ f, isS f = true → isR f = true → isR (syncF f) = true
+  set_isS : ∀ f, isS f = true → isS (setF f) = true
+  set_isR : ∀ f, isR (setF f) = true
+
+theorem editOk_expand {X : Type} (stepF syncF setF : F → F) (isS isR : F → Bool)
+    (H : EditFlags stepF syncF setF isS isR) (l : List (MOp X)) (rest : List (Op X)) (p : Bool) (f : F)
+    (hp : p = true → isS f = true ∧ isR f = true)
+    (hrest : ∀ p g, (p = true → isS g = true ∧ isR g = true) → editOk stepF syncF setF isS isR rest p g = true) :
+    editOk stepF syncF setF isS isR (expandAll l ++ rest) p f = true := by
+  induction l generalizing p f with
+  | nil => exact hrest p f hp
+  | cons m ms ih =>
+    have step_ok : ∀ (tail : List (Op X)) (p : Bool) (g : F), (p = true → isS g = true ∧ isR g = true) →
+        (∀ q h, (q = true → isS h = true ∧ isR h = true) → editOk stepF syncF setF isS isR tail q h = true) →
+        editOk stepF syncF setF isS isR (Op.step :: tail) p g = true := by
+      intro tail p g hg ht
+      simp only [editOk, Bool.and_eq_true, Bool.or_eq_true, Bool.not_eq_true']
+      refine ⟨?_, ht false _ (fun h => by cases h)⟩
+      cases p
+      · exact Or.inl rfl
+      · exact Or.inr (hg rfl)
+    have edit_ok : ∀ (w : X) (tail : List (Op X)) (p : Bool) (g : F),
+        (∀ q h, (q = true → isS h = true ∧ isR h = true) → editOk stepF syncF setF isS isR tail q h = true) →
+        editOk stepF syncF setF isS isR (Op.synchronize :: Op.poke w :: Op.setRecalc :: tail) p g = true := by
+      intro w tail p g ht
+      simp only [editOk, H.sync_isS, Bool.true_and]
+      exact ht true _ (fun _ => ⟨H.set_isS _ (H.sync_isS g), H.set_isR _⟩)
+    show editOk stepF syncF setF isS isR (m.expand ++ expandAll ms ++ rest) p f = true
+    cases m with
+    | synchronize =>
+      simp only [MOp.expand, List.cons_append, List.nil_append, editOk, List.append_assoc]
+      apply ih
+      intro hp'
+      have := hp hp'
+      exact ⟨H.sync_isS f, H.sync_isR f this.1 this.2⟩
+    | read =>
+      simp only [MOp.expand, List.cons_append, List.nil_append, editOk, List.append_assoc]
+      exact ih p f hp
+    | cbStep pre post =>
+      have hpost : ∀ q h, (q = true → isS h = true ∧ isR h = true) →
+          editOk stepF syncF setF isS isR ((match post with | some w => [Op.synchronize, .poke w, .setRecalc] | none => []) ++
+            (expandAll ms ++ rest)) q h = true := by
+        intro q h hq
+        cases post with
+        | none => simpa using ih q h hq
+        | some w => exact edit_ok w _ q h (fun q' h' hq' => ih q' h' hq')
+      cases pre with
+      | none =>
+        simp only [MOp.expand, cbStepPlan, List.nil_append, List.cons_append, List.append_assoc]
+        exact step_ok _ p f hp hpost
+      | some w =>
+        simp only [MOp.expand, cbStepPlan, List.cons_append, List.nil_append, List.append_assoc]
+        exact edit_ok w _ p f (fun q h hq => step_ok _ q h hq hpost)
+
 end RV.Sync
